@@ -1,7 +1,7 @@
 (* Dispatch table of the extracted model executable: one command per modelled function.
    Model modules are required, not imported: every reference below is qualified. *)
 From FV Require Import Base.Prelude.
-From FV Require Model.ScriptBlocks Model.MathFuncs gen.MathTable Cpp.IR Cpp.Exec Model.KindModel Model.Arith Model.LocalDataset Model.WordSubst Model.CppTypesModel Model.ExecState Cpp.EventLocal Model.Inject gen.Templates Cpp.Static Model.Lowering Cpp.FillConsistent Model.TreeSchema.
+From FV Require Model.ScriptBlocks Model.MathFuncs gen.MathTable Cpp.IR Cpp.Exec Model.KindModel Model.Arith Model.LocalDataset Model.WordSubst Model.CppTypesModel Model.ExecState Cpp.EventLocal Model.Inject gen.Templates Cpp.Static Model.Lowering Cpp.FillConsistent Model.TreeSchema Model.CppLex Model.Consts.
 
 Definition dispatch (cmd : string) (arg : sexp) : sexp :=
   if String.eqb cmd "c15.gen" then ScriptBlocks.run_gen arg
@@ -42,4 +42,13 @@ Definition dispatch (cmd : string) (arg : sexp) : sexp :=
   else if String.eqb cmd "c03.schema" then TreeSchema.run_schema arg
   else if String.eqb cmd "c03.expected" then TreeSchema.run_expected arg
   else if String.eqb cmd "c03.fillcheck" then FillConsistent.run_fillcheck arg
+  else if String.eqb cmd "c12.audit" then MathFuncs.audit MathTable.math_env MathTable.documented
+  else if String.eqb cmd "c18.render" then Consts.run_render arg
+  else if String.eqb cmd "c18.render_v0" then Consts.run_render_v0 arg
+  else if String.eqb cmd "c18.lex_prefix" then CppLex.run_lex_prefix arg
+  else if String.eqb cmd "c18.literal_at" then Consts.run_literal_at arg
+  else if String.eqb cmd "c18.bank" then Consts.run_bank arg
+  else if String.eqb cmd "c18.attribute" then Consts.run_attribute arg
+  else if String.eqb cmd "c18.book" then Consts.run_book arg
+  else if String.eqb cmd "c18.float_grammar" then Consts.run_float_grammar arg
   else s_tag "unknown-command" [SAtom cmd].
